@@ -86,14 +86,17 @@ example : unpack (.set true (.pod 1)) (.list []) [2, 0, 0, 0, 0, 0, 0, 0, 9, 3] 
 
 example : flat (.struct [.str, .vec (.opt (.int 4)), .var [.pod 8, .tup [.vecBool, .arr 3 (.pod 2)]]]) = true := by decide
 
-/-- The code as it is packs `time_point` (milliseconds) as `time_t`: the time read back is the
-time packed iff it is a whole number of seconds.  (Finding F7: sub-second report steps.) -/
-theorem time_point_roundtrip_iff (ms : Nat) (rest : Bytes) (h : ms / 1000 < 256 ^ 8) :
-    unpackTime (packTime ms ++ rest) = .ok (ms, rest) ↔ ms % 1000 = 0 :=
-  time_roundtrip_iff ms rest h
+/-- `time_point` round trip: every `int64_t` millisecond count — sub-second times and times
+before the epoch included — is read back exactly, whatever follows in the buffer.  (The wire
+format is the full tick count since fix e3efc3a5b; the earlier `time_t` encoding lost the
+milliseconds, finding F7.) -/
+theorem time_point_roundtrip (ms : Int) (rest : Bytes) (hlo : -two63 ≤ ms) (hhi : ms < two63) :
+    unpackTime (packTime ms ++ rest) = .ok (ms, rest) :=
+  unpackTime_packTime ms rest hlo hhi
 
-/-- witness of the failing instance: 1.5 s comes back as 1 s -/
-example : unpackTime (packTime 1500) = .ok (1000, []) := by decide +kernel
+/-- non-vacuity: 1.5 s after and 0.864 s before the epoch survive -/
+example : unpackTime (packTime 1500) = .ok (1500, []) ∧ unpackTime (packTime (-864)) = .ok (-864, []) := by
+  decide +kernel
 
 /-! ## per-class completeness over the generated table -/
 
@@ -114,23 +117,18 @@ def exceptions : List Exc := [
   ("Opm::UnitSystem", "measure_table_from_si", "rebuilt by init() inside serializeOp on unpack"),
   ("Opm::UnitSystem", "measure_table_to_si", "rebuilt by init() inside serializeOp on unpack"),
   ("Opm::UnitSystem", "unit_name_table", "rebuilt by init() inside serializeOp on unpack"),
-  ("Opm::Well", "unit_system", "process-local back-pointer, re-established by Schedule::serializeOp")
+  ("Opm::Well", "unit_system", "process-local back-pointer, re-established by Schedule::serializeOp"),
+  ("Opm::ScheduleStatic", "sumthin", "construction-time input: read only by Schedule::create_first, which copies it into ScheduleState::m_sumthin (serialized)"),
+  ("Opm::ScheduleStatic", "rptonly", "construction-time input: read only by Schedule::create_first, which copies it into ScheduleState::m_rptonly (serialized)"),
+  ("Opm::ScheduleStatic", "oilVap", "construction-time input: read only by Schedule::create_first, which copies it into ScheduleState::oilvap (serialized)")
 ]
 
-/-- Data members found NOT serialized on the unchanged tree that a public query or a keyword
-handler reads afterwards: findings of this check (see design.d/C11.md), listed so that the
-`members_covered` describes the code as it is.  The property-mode harness demonstrates them on real code. -/
+/-- Data members that are still NOT serialized and are read after construction, i.e. open
+candidates (no deck-level reproduction yet; see design.d/C11.md).  The six members found by this
+check that a public query demonstrably lost (F7–F12) were fixed in /repo and are serialized now. -/
 def knownUnserialized : List Exc := [
-  ("Opm::Schedule", "possibleFutureConnections", "FINDING: read by getPossibleFutureConnections()"),
-  ("Opm::NetworkDims", "type_", "FINDING: read by extendedNetwork()/standardNetwork()/active()"),
-  ("Opm::SummaryConfig", "runSummaryConfig", "FINDING: read by createRunSummary()"),
-  ("Opm::EclipseState", "m_restart_network_pressures", "FINDING: read by getRestartNetworkPressures()"),
-  ("Opm::GroupEconProductionLimits::GEconGroup", "m_report_step", "FINDING: read by reportStep()"),
-  ("Opm::Well::WellProductionProperties", "bhp_hist_limit_defaulted", "candidate: read by the WCONHIST/WCONPROD handlers (ACTIONX after restart)"),
-  ("Opm::ScheduleStatic", "sumthin", "candidate: construction-time input, copied into ScheduleState"),
-  ("Opm::ScheduleStatic", "rptonly", "candidate: construction-time input, copied into ScheduleState"),
-  ("Opm::ScheduleStatic", "oilVap", "candidate: construction-time input, copied into ScheduleState"),
-  ("Opm::ScheduleStatic", "slave_mode", "candidate: read by the reservoir-coupling keyword handlers")
+  ("Opm::ScheduleStatic", "slave_mode", "candidate: read by the GRUPMAST/SLAVES/GRUPSLAV handlers (handlerContext.static_schedule().slave_mode) whenever such a keyword is applied after unpack, e.g. from an ACTIONX in a reservoir-coupling slave"),
+  ("Opm::EclipseState", "m_restart_network_pressures", "candidate: filled by loadRestartNetworkPressures() in restarted network runs, read by the public getRestartNetworkPressures()")
 ]
 
 /-- Serialized members that `operator==` (including the member functions it calls) does not
@@ -186,7 +184,7 @@ def requiredClasses : List String := [
     throw (IO.userError s!"C11 eq_covers_serialized: serialized member(s) not compared by operator==: {showPairs e}")
   if !(badKeys classes).isEmpty then
     throw (IO.userError s!"C11: translator/class-key mismatch for {badKeys classes}")
-  let s := staleExceptions exceptions classes ++ staleEqExceptions eqExceptions classes
+  let s := staleExceptions (exceptions ++ knownUnserialized) classes ++ staleEqExceptions eqExceptions classes
   if !s.isEmpty then
     throw (IO.userError s!"C11 exceptions_tight: stale exception(s): {showPairs s}")
 
@@ -198,10 +196,11 @@ theorem members_covered : uncovered (exceptions ++ knownUnserialized) classes = 
 member forgotten in both places cannot hide behind `==`. -/
 theorem eq_covers_serialized : eqUncovered eqExceptions classes = [] := by decide +kernel
 
-/-- The exception lists are tight: every entry names an existing member that really is not
-serialized / not compared (a stale entry would mask a later regression). -/
+/-- The exception lists are tight: every entry (candidates included) names an existing member
+that really is not serialized / not compared (a stale entry would mask a later regression). -/
 theorem exceptions_tight :
-    staleExceptions exceptions classes = [] ∧ staleEqExceptions eqExceptions classes = [] := by decide +kernel
+    staleExceptions (exceptions ++ knownUnserialized) classes = [] ∧ staleEqExceptions eqExceptions classes = [] := by
+  decide +kernel
 
 /-- All classes named by the property are covered by the table.  (Classes are looked up by the
 numeric `key` first and by name second, so a wrong key can only make a lookup fail — i.e. make
